@@ -1,0 +1,16 @@
+//go:build verif
+// +build verif
+
+package utils
+
+import "github.com/polynetwork/poly/common"
+
+// VerifConcatKeyHook, when set by the verification harness, observes every storage key built by
+// ConcatKey together with the logical parts it was built from.
+var VerifConcatKeyHook func(contract common.Address, parts [][]byte, result []byte)
+
+func verifOnConcatKey(contract common.Address, parts [][]byte, result []byte) {
+	if h := VerifConcatKeyHook; h != nil {
+		h(contract, parts, result)
+	}
+}
